@@ -1356,6 +1356,48 @@ def run(ctx: Ctx) -> None:
                     judge.fail(shape_, Case(1, body, 'open-acceptance', 'multi-session' if msess else 'plain'), o.cls, 'the peer\'s OPEN was read, and its negotiation raised something that is not a NOTIFICATION (Peer._run resets the session without one)', o, o.stage + (':multi-session' if msess else ''))
                 elif o.cls == 'notify' and tuple(int(x) for x in o.detail.split()) not in judge.defined:
                     judge.fail(shape_, Case(1, body, 'open-acceptance', 'multi-session' if msess else 'plain'), 'undefined-code', 'NOTIFICATION outside the defined table', o, o.stage)
+    # sequences of valid messages of one ESTABLISHED session on one Adj-RIB-In and one set of handlers: announcements,
+    # withdrawals of what was announced (and of what was not), ROUTE-REFRESH requests and BoRR / EoRR markers (RFC 7313)
+    # for the same and for other families, End-of-RIB, KEEPALIVE, in every order a peer may send them
+    sh6 = shapes[0]
+    w4 = 4 if sh6.asn4 else 2
+    attrs4 = attr(0x40, 1, b'\x00') + attr(0x40, 2, bytes([2, 1]) + (65001).to_bytes(w4, 'big')) + attr(0x40, 3, bytes([10, 0, 0, 1]))
+    nh6 = bytes([0x20, 1, 0x0D, 0xB8] + [0] * 11 + [1])
+    p6 = lambda i: bytes([48, 0x20, 1, 0x0D, 0xB8, 0, i])  # noqa: E731
+    alpha = {
+        'ann4a': (2, update(attrs4, v4nlri(1))), 'ann4b': (2, update(attrs4, v4nlri(2) + v4nlri(3))), 'wd4a': (2, update(b'', b'', v4nlri(1))), 'wd4b': (2, update(b'', b'', v4nlri(2))), 'wd4x': (2, update(b'', b'', v4nlri(9))),
+        'ann6': (2, update(attr(0x40, 1, b'\x00') + attr(0x40, 2, bytes([2, 1]) + (65001).to_bytes(w4, 'big')) + attr(0x80, 14, u16(2) + bytes([1, 16]) + nh6 + b'\x00' + p6(1) + p6(2)))),
+        'wd6': (2, update(attr(0x80, 15, u16(2) + bytes([1]) + p6(1)))), 'eor4': (2, bytes(4)), 'eor6': (2, update(attr(0x80, 15, u16(2) + bytes([1])))), 'ka': (4, b''),
+        'rr4': (5, u16(1) + bytes([0, 1])), 'borr4': (5, u16(1) + bytes([1, 1])), 'eorr4': (5, u16(1) + bytes([2, 1])), 'rr6': (5, u16(2) + bytes([0, 1])), 'borr6': (5, u16(2) + bytes([1, 1])), 'eorr6': (5, u16(2) + bytes([2, 1])),
+    }
+    seqs = [['ann4a', 'borr4', 'wd4a', 'eorr4'], ['ann4a', 'ann4b', 'borr4', 'ann4a', 'eorr4', 'wd4b'], ['ann6', 'borr6', 'wd6', 'eorr6'], ['ann4a', 'borr4', 'eorr6', 'eorr4'], ['borr4', 'borr4', 'eorr4', 'eorr4'], ['eorr4', 'ann4a', 'borr4'],
+            ['ann4a', 'ann6', 'borr4', 'borr6', 'wd4a', 'wd6', 'eorr6', 'eorr4'], ['ann4a', 'wd4a', 'wd4a', 'wd4x', 'eor4'], ['ann4b', 'rr4', 'wd4b', 'rr6', 'eor6']]
+    names = sorted(alpha)
+    for _ in range(150 if quick else 6000):
+        seqs.append([rng.choice(names) for _ in range(rng.randrange(2, 9))])
+    for seq in seqs:
+        outs = T.read_sequence(sh6, [alpha[k] for k in seq])
+        ctx.evaluations += 1
+        ctx.count('session-sequence:len%d' % len(seq))
+        o = outs[-1]
+        if o.cls in ('raised', 'recursion', 'timeout'):
+            k = len(outs) - 1
+            canon = {'type': alpha[seq[k]][0], 'class': o.cls, 'level': o.stage + ':after-history', 'exception': o.detail, 'site': o.note.split(' | ')[0]}
+            key = json.dumps(canon, sort_keys=True)
+            if key not in judge.seen_fail:
+                judge.seen_fail.add(key)
+                # the shortest prefix-free history: drop earlier messages while the last one still fails
+                hist = list(seq[: k + 1])
+                i = 0
+                while i < len(hist) - 1:
+                    cand = hist[:i] + hist[i + 1 :]
+                    oo = T.read_sequence(sh6, [alpha[x] for x in cand])
+                    if len(oo) == len(cand) and oo[-1].cls == o.cls and oo[-1].detail == o.detail:
+                        hist = cand
+                    else:
+                        i += 1
+                ctx.failures.append(Failure('update-class', canon, {'shape': sh6.name, 'history': [[alpha[x][0], alpha[x][1].hex()] for x in hist], 'names': hist, 'stream': 'session-sequence'},
+                                            f'after {"+".join(hist[:-1]) or "nothing"} on one session, the message {hist[-1]} raised something that is not a NOTIFICATION in the peer loop (the session is reset without one): {o.canon()} {o.note[:160]}'))
     # the fast path of read_message (adj-rib-in off, no API consumer, route logging off): UPDATEs are not decoded,
     # the shared `_UPDATE` object goes to the handlers of the peer loop instead
     for ty, body, label in [(2, update(base_attrs(sh), v4nlri(1)), 'update'), (2, bytes(4), 'eor-v4'), (2, update(attr(0x80, 15, u16(2) + bytes([1]))), 'eor-v6'), (2, b'\x00', 'short'), (4, b'', 'keepalive'), (5, u16(1) + bytes([0, 1]), 'refresh')]:
@@ -1378,7 +1420,12 @@ def replay(path: str) -> int:
     if rp.get('fast'):
         rp['level'] = 'handler:fast-path'
     sh = T.build_shape(next(s for s in T.ALL_SPECS if s[0] == rp['shape']))
-    body = bytes.fromhex(rp['body'])
+    body = bytes.fromhex(rp.get('body', ''))
+    if rp.get('history'):
+        outs = T.read_sequence(sh, [(t, bytes.fromhex(h)) for t, h in rp['history']])
+        for (t, h), o in zip(rp['history'], outs):
+            print('type', t, h[:60], '->', o.canon(), o.note[:120])
+        return 1 if outs and outs[-1].cls in ('raised', 'recursion', 'timeout') else 0
     if rp.get('stream') == 'open-acceptance':
         o = T.accept_open(sh, body, rp.get('label') == 'multi-session')
         print('OPEN', body.hex(), 'on', sh.name, '(multi-session configured)' if rp.get('label') == 'multi-session' else '')
